@@ -32,16 +32,41 @@ def grammar_list(tier, seed):
         out = out[::2]
     out += [{'spec': s, 'recursive': False, 'linear': True, 'name': f'twolevel{i}'} for i, s in enumerate(grammars.two_level_family(rng, 6 if tier == 'quick' else 60, 3))]
     for g in recursive.family():
-        if g['name'] in ('hmm', 'two_cycle', 'start_recursive', 'two_sccs', 'scalar_linear'):
+        if g['name'] in ('hmm', 'two_cycle', 'start_recursive', 'two_sccs', 'scalar_linear', 'three_cycle_chord', 'four_cycle_chords'):
             out.append({'spec': g['spec'], 'recursive': True, 'linear': g['linear'], 'name': g['name']})
+    # rules with two or three internal nodes (several arg-max pointers per rule), for the weight of the viterbi derivation
+    def R(lhs, nodes, edges, ext):
+        return {'lhs': lhs, 'nodes': nodes, 'edges': [{'label': l, 'att': a} for l, a in edges], 'ext': ext}
+    dom = {'T': 2, 'U': 3}
+    out.append({'spec': {'start': 'S', 'domains': dom, 'nonterminals': {'S': []}, 'terminals': {'f': ['T'], 'g': ['T'], 'h': ['T', 'T']},
+                         'rules': [R('S', ['T', 'T'], [('f', [0]), ('g', [1]), ('h', [0, 1])], [])]}, 'recursive': False, 'linear': True, 'name': 'vit_two_internal', 'only': ['viterbi']})
+    out.append({'spec': {'start': 'S', 'domains': dom, 'nonterminals': {'S': []}, 'terminals': {'q': ['T'], 'p': ['U']},
+                         'rules': [R('S', ['T', 'U'], [('q', [0]), ('p', [1])], [])]}, 'recursive': False, 'linear': True, 'name': 'vit_two_internal_sizes', 'only': ['viterbi']})
+    out.append({'spec': {'start': 'S', 'domains': dom, 'nonterminals': {'S': [], 'r': ['T', 'T']}, 'terminals': {'f': ['T'], 'g': ['T'], 'h': ['T', 'T']},
+                         'rules': [R('S', ['T', 'T'], [('f', [0]), ('g', [1]), ('r', [0, 1])], []), R('r', ['T', 'T'], [('h', [0, 1])], [0, 1])]},
+                'recursive': False, 'linear': True, 'name': 'vit_two_internal_nt', 'only': ['viterbi']})
+    out.append({'spec': {'start': 'S', 'domains': dom, 'nonterminals': {'S': ['T']}, 'terminals': {'c': ['T'], 'b': ['T', 'T'], 'a': ['T', 'T']},
+                         'rules': [R('S', ['T', 'T', 'T'], [('c', [2]), ('b', [1, 2]), ('a', [0, 1])], [0])]}, 'recursive': False, 'linear': True, 'name': 'vit_chain', 'only': ['viterbi']})
+    # gradients of a recursive grammar across insertion orders: recursion weights concrete (see C03), the rest symbolic
+    for g in recursive.linear_tensor_family():
+        if g['name'] in ('three_cycle_chord_BC', 'vec_two_cycle', 'two_recursive_rules'):
+            out.append({'spec': g['spec'], 'recursive': True, 'linear': True, 'name': 'grad_' + g['name'], 'only': ['real'], 'concrete': g['concrete']})
     good = []
     for g in out:
         if not g['recursive'] and grammars.is_recursive(g['spec']):
             continue
-        nunk = sum(math.prod(s) for s in grammars.weight_shapes(g['spec']).values())
+        nunk = sum(math.prod(s) for n, s in grammars.weight_shapes(g['spec']).items() if n not in g.get('concrete', {}))
         if 0 < nunk <= 12:
             good.append(g)
     return good
+
+
+def has_derivation_everywhere(spec):
+    """every start assignment has at least one derivation (Boolean sum-product with all-true weights): precondition of the viterbi clause"""
+    from oracles import sumproduct, semiring_float as OF
+    W = {n: {ix: True for ix in itertools.product(*[range(k) for k in shp])} for n, shp in grammars.weight_shapes(spec).items()}
+    z = sumproduct.sum_products(OF.BY_NAME['bool'], spec, W)[spec['start']]
+    return all(bool(v) for v in z.values())
 
 
 def cases(tier, seed=0):
@@ -50,16 +75,32 @@ def cases(tier, seed=0):
     for gi, g in enumerate(grammar_list(tier, seed)):
         kinds = ['real', 'viterbi', 'bool', 'log']
         for ki, kind in enumerate(kinds):
+            if kind not in g.get('only', kinds):
+                continue
+            if 'concrete' in g:
+                cs.append({'name': g['name'], 'spec': g['spec'], 'recursive': True, 'semiring': 'real', 'method': 'linear', 'opts': {}, 'grad': True, 'concrete': g['concrete']})
+                continue
             if g['recursive']:
                 if kind == 'log':
                     continue
+                if kind == 'real' and len(g['spec']['nonterminals']) > 4:
+                    continue        # 4x4 symbolic linear system: beyond the linalg stub
                 method, opts = ('linear', {}) if kind == 'real' else ('fixed-point', {'tol': 0, 'kmax': 8})
+                if kind in ('bool', 'viterbi') and g['name'] in ('three_cycle_chord', 'four_cycle_chords', 'two_cycle'):
+                    # the block elimination of multi_solve in the idempotent semirings, too (pivot order depends on the insertion order)
+                    cs.append({'name': g['name'], 'spec': g['spec'], 'recursive': True, 'semiring': kind, 'method': 'linear', 'opts': {}, 'grad': False})
             else:
                 method, opts = ['fixed-point', 'newton', 'linear'][(gi + ki) % 3], {}
-            if tier == 'quick' and not g['recursive'] and (gi + ki) % 2:
+            if tier == 'quick' and not g['recursive'] and (gi + ki) % 2 and 'only' not in g:
                 continue
             cs.append({'name': g['name'], 'spec': g['spec'], 'recursive': g['recursive'], 'semiring': kind, 'method': method, 'opts': opts,
-                       'grad': kind == 'real' and not g['recursive']})
+                       'grad': kind == 'real' and not g['recursive'],
+                       # weight of the viterbi derivation (finite weights: the maximum is attained; recursion excluded, see F14 of C04)
+                       'viterbi_weight': kind == 'viterbi' and not g['recursive'] and has_derivation_everywhere(g['spec'])
+                       and sum(math.prod(s) for s in grammars.weight_shapes(g['spec']).values()) <= (8 if tier == 'quick' else 12)})
+    # static sharding (cases[shard::n]): spread the expensive cases (arg-max forking, many presentations) over the shards
+    cost = lambda c: (c['semiring'] == 'viterbi') * 4 + (c['method'] == 'fixed-point' and c['recursive']) * 2 + len(c['spec']['rules'])
+    cs.sort(key=cost, reverse=True)
     return cs
 
 
@@ -73,10 +114,11 @@ def run_case(col, case):
     names = sorted(shapes)
     nr = len(spec['rules'])
     rperms = presentations.perms(nr)
-    if len(rperms) > 6:
+    cap = (10 if TIER[0] == 'quick' else 24) if 'concrete' in case else 6
+    if len(rperms) > cap:
         rr = random.Random(nr)
-        rperms = [rperms[0], rperms[-1]] + rr.sample(rperms[1:-1], 4)
-    light = case['recursive'] and kind == 'real'      # nonlinear solver terms: fewer presentations (the others are covered in the other semirings)
+        rperms = [rperms[0], rperms[-1]] + rr.sample(rperms[1:-1], cap - 2)
+    light = case['recursive'] and kind == 'real' and 'concrete' not in case      # nonlinear solver terms: fewer presentations (the others are covered in the other semirings)
     RP = z3.Int('rule_perm')
     ne = 1 if TIER[0] == 'quick' else min(nr, 2)
     EP = [z3.Int(f'edge_perm{i}') for i in range(ne)]
@@ -85,9 +127,14 @@ def run_case(col, case):
     REN, EXP, VSW = z3.Bool('rename'), z3.Bool('explicit_ids'), z3.Bool('value_swap')
     V = symvals.Vars()
     cls = 'T' if kind in ('viterbi', 'bool') else 'P'
+    if case.get('viterbi_weight'):
+        cls = 'P'
     flat = {}
     for n in names:
         row = []
+        if n in case.get('concrete', {}):
+            flat[n] = [float(v) for v in case['concrete'][n]]
+            continue
         for i in range(math.prod(shapes[n])):
             e = V.elem(f'{n}_{i}', kind, cls)
             if kind == 'viterbi' and case['recursive']:
@@ -110,13 +157,16 @@ def run_case(col, case):
                   'rename': False if light else symx.branch(REN, free=True), 'value_swap': False if light else symx.branch(VSW, free=True)}
         choice['explicit_ids'] = choice['rename'] if (TIER[0] == 'quick' or light) else symx.branch(EXP, free=True)
         holder['choice'] = choice
+        symx.ENGINE.notes.append(('_replay', {'choice': {k: (v if not isinstance(v, dict) else {str(a): b for a, b in v.items()}) for k, v in choice.items()}}))
         c = dict(case)
         c['choice'] = choice
         items = R.run(B, c, flat, cot)
-        return [(cl, nm, {'presentation': json.dumps(choice, default=str)[:200]}) for cl, nm in claims_of(items)]
+        jchoice = {k: (v if not isinstance(v, dict) else {str(a): b for a, b in v.items()}) for k, v in choice.items()}
+        return [(cl, nm, {'presentation': json.dumps(choice, default=str)[:200], '_replay': {'choice': jchoice}}) for cl, nm in claims_of(items)]
 
     def make_replay(vals, name):
         return {'name': case['name'], 'spec': spec, 'semiring': kind, 'method': case['method'], 'opts': case['opts'], 'grad': case['grad'],
+                'viterbi_weight': case.get('viterbi_weight', False), 'concrete': case.get('concrete'),
                 'choice': {k: (v if not isinstance(v, dict) else {str(a): b for a, b in v.items()}) for k, v in holder.get('choice', {}).items()},
                 'values': TL.jsonable(vals), 'claim': name}
     TL.explore(col, V, body, feats, make_replay, label=f"presentation/{case['name']}/{kind}", timeout_ms=30000)
